@@ -146,7 +146,10 @@ inductive Mark where
   | own (u : Nat)      -- attribute written by the own solution of unit `u`
   deriving Repr, DecidableEq
 
-/-- what a processor's `solve(profile)` does -/
+/-- what a processor's `solve(profile)` does.  The state of a profile object is its mark list; a processor that also
+adds, changes or drops ANOTHER value (harness behaviours a/A, c/C, d/D) is `fresh` resp. `inplace` here - those values
+are looked at by the oracle on the real objects, and what the re-use branch of `init_solve` does to them by
+`refreshEntry` (ProcProg.lean) on the literals read from the source -/
 inductive Beh where
   | inplace     -- writes its mark on the object it received and returns that object
   | fresh       -- returns a new profile (public copy of the received one) carrying its mark in addition
